@@ -352,6 +352,15 @@ impl ExtendedHeader {
 //@sub E9 "self.header .last_block_id .map(|block_id| block_id.hash) .unwrap_or_default()" => "vx_unwrap_or_default(match self.header.last_block_id { Some(block_id) => Some(block_id.hash), None => None })"
 //@end
 
+// the accessor for validated headers: its `expect` is an obligation, so a caller handling peer input must have checked the
+// version first (seed C16-b: validate() itself switched to this accessor)
+//@fn impl ExtendedHeader :: app_version
+//@props C01 C16
+    pub fn app_version(&self) -> (r: AppVersion)
+        requires 1 <= self.header.version.app <= 7
+        ensures r == app_of(self.header.version.app)
+//@end
+
 //@fn impl ExtendedHeader :: validate
 //@props C01
 //@macro bail_validation => return Err(Error::Validation(ValidationError::Other))
